@@ -281,6 +281,30 @@ pub fn build_inputs(cfg: &Cfg) -> Vec<Input> {
             }
         }
     }
+    // larger tori: 2-, 3- and 4-sheeted covers of the pseudo-toroidal covers of corpus symbols with large faces or
+    // vertex figures (what the euclidicity test feeds into simplify for a symbol with trivial point group). The
+    // intermediate complexes grow with the torus: chains of removed chambers of length 25 and more occur from
+    // about 960 chambers on, 13-21 on the 2- and 3-sheeted ones, 5 on the corpus covers themselves.
+    for (ci, c) in gen::corpus().iter().enumerate() {
+        let big_faces = (1..=c.n).any(|d| (0..3).any(|i| c.m(i, i + 1, d) >= cfg.tier.pick(8, 6)));
+        if !big_faces {
+            continue;
+        }
+        if let Ok(Some(cov)) = observe(|| pseudo_toroidal_cover(&to_partial_dsym(c)).map(|x| from_dsym(&x))) {
+            if !cov.is_valid_symbol() || !three_d::unbranched(&cov) || cov.n > cfg.tier.pick(260, 400) {
+                continue;
+            }
+            if let Ok(list) = observe(|| rust_dsymbols::covers::covers(&to_partial_dsym(&cov), 4).iter().map(|x| from_dsym(x)).collect::<Vec<_>>()) {
+                for sheets in 2..=4usize {
+                    let mut of_size: Vec<&MSym> = list.iter().filter(|x| x.n == sheets * cov.n && x.is_valid_symbol() && three_d::unbranched(x)).collect();
+                    rng.shuffle(&mut of_size);
+                    for x in of_size.into_iter().take(cfg.tier.pick(if sheets == 4 { 12 } else { 3 }, 40)) {
+                        inputs.push(Input { name: format!("{}-sheeted cover of the pseudo-toroidal cover of corpus symbol {} ({} chambers)", sheets, gen::EUCLIDEAN_CORPUS[ci], x.n), set: MSym::from_ops(3, x.n, x.op.clone()), topology_clause: true, fed_by_euclidicity: true, corpus_index: Some(ci) });
+                    }
+                }
+            }
+        }
+    }
     // duals of the corpus symbols (euclidean as well; the cube is self-dual, so the expected image is the same)
     for (ci, c) in gen::corpus().iter().enumerate() {
         let d = c.dual();
